@@ -77,7 +77,7 @@ func StressNames(thorough bool) check.Family {
 // Features are structural features (verbs, routes, wildcards, body forms, content types,
 // multipart, skip-encode, streaming).
 func Features() check.Family {
-	return check.Family{Name: "l2-features", Cases: spec.L2Features(), PerService: 4, CompileOnly: true}
+	return check.Family{Name: "l2-features", Cases: spec.L2Features(), PerService: 4}
 }
 
 // PayloadValidationPairs / ResultValidationPairs: cross-talk between two attributes' rules.
